@@ -356,8 +356,12 @@ def gen_generator():
         fail("bucket pairings", str(e))
         pairs = []
     out.append("/-- (salt, i, j, k): `increment(b_mapping(salt, b_i, b_j, b_k))` in `update`, in source order -/")
-    out.append("def pairings : List (Nat × Nat × Nat × Nat) := [" +
+    out.append("def pairingsSrc : List (Nat × Nat × Nat × Nat) := [" +
                ", ".join(f"({a}, {b}, {c}, {d})" for a, b, c, d in pairs) + "]\n")
+    out.append("/-- the same statements in canonical (sorted) order: the increments commute "
+               "(`Lemmas/Pairings.lean`, `C01.pairings_order_irrelevant`) -/")
+    out.append("def pairings : List (Nat × Nat × Nat × Nat) := [" +
+               ", ".join(f"({a}, {b}, {c}, {d})" for a, b, c, d in sorted(pairs)) + "]\n")
     try:
         i = find_seq(tg, ["self", ".", "checksum", ".", "update", "("])
         e = match_close(tg, i + 5)
